@@ -271,8 +271,10 @@ def main(argv=None):
     from aw_core.models import Event
     from aw_transform.flood import flood
 
-    ck.prove(extra_targets=["Bridge/BridgeFlood.v"], gen_kernels=["flood_step", "flood"])
+    ck.prove(extra_targets=["Bridge/BridgeFlood.v", "Props/C10own.v"], gen_kernels=["flood_step", "flood"])
     have_driver = ck.driver()
+    from . import theap            # "the input is not modified": heap-level model (Props/C10own.v), tie A with aliasing
+    theap.heap_check(ck, "flood", have_driver=theap.prepare(ck))
 
     if ck.tier == "quick":
         n_exh, n_samp, n_rand, n_ood = 3, 2500, 3000, 3000
@@ -389,7 +391,8 @@ def main(argv=None):
         "event data compared through harness-assigned labels (one per Python == class)",
         "theorem domain: after flood's own stable sort the events satisfy end_i <= start_{i+1}, durations >= 0, "
         "timestamps and durations multiples of 1000 µs (aw-core's millisecond granularity)",
-        "'the input is not modified' is decided by the oracle (deep compare + object identity before/after), not by a theorem",
+        "'the input is not modified': theorem over the heap-level model (Props/C10own.v: frame + freshness for every heap and "
+        "aliasing; refinement to the functional model for lists of distinct Event objects), tied by harness/theap.py",
         "logging side effects (the two warned_* flags only guard log lines; the model carries them and a lemma shows "
         "they do not influence the returned events) are not observed",
     ]
